@@ -12,12 +12,14 @@ import (
 
 	"oss.terrastruct.com/d2/d2ast"
 	"oss.terrastruct.com/d2/d2compiler"
+	"oss.terrastruct.com/d2/d2format"
 	"oss.terrastruct.com/d2/d2graph"
 	"oss.terrastruct.com/d2/d2parser"
 )
 
 // C06: IDs of compiled boards.  One case per board of a generated program:
 //
+//	k=pmk   in {t}            out ParseMapKey(t) read as a connection ID (arbitrary edge-like text)
 //	k=board in {prog, board}  out {objects:[{id,absid,lower,name,parent,idparse,absparse}],
 //	                               edges:[{absid,lower,src,dst,srcArrow,dstArrow,index,parse}]}
 //
@@ -329,9 +331,66 @@ var corpus = []string{
 	"layers: {\n  \"Steps\": {\n    a -> b\n  }\n}\n", "\"x[0]\" -> y\n", "\"*\" -> \"a*\"\n", "\"'a'\" -> '\"b\"'\n", "\"@x\" -> \"...@y\"\n", "\"a\\\\\" -> \"\\\\b\"\n",
 }
 
+// edgeText builds a connection-ID-like text: mostly well-formed `[common.](src arrow dst)[index]`, with noise.
+func (pg *progGen) edgeText(pool []string) string {
+	r := pg.r
+	seg := func() string {
+		if r.Intn(3) == 0 { // the real printer
+			return d2formatKey(pool[r.Intn(len(pool))])
+		}
+		return srcName(r, pool[r.Intn(len(pool))])
+	}
+	path := func() string {
+		n := 1 + r.Intn(3)
+		q := make([]string, n)
+		for i := range q {
+			q[i] = seg()
+		}
+		return strings.Join(q, ".")
+	}
+	arrowsX := []string{"->", "->", "<-", "<->", "--", "-->", "<--", "-", "<", ">", "- >", "-*", "*-", "-\\\n>", "=>"}
+	sp := func() string { return []string{" ", " ", " ", "", "  ", "\t"}[r.Intn(6)] }
+	idx := []string{"[0]", "[1]", "[12]", "[007]", "[ 3 ]", "[1 2]", "[*]", "[]", "[x]", "[1", "", "[3].label", "[0]: x", "[2] {", "[4] #c"}
+	var b strings.Builder
+	if r.Intn(2) == 0 {
+		b.WriteString(path())
+		b.WriteString([]string{".", ".", ". ", " ."}[r.Intn(4)])
+	}
+	b.WriteString("(")
+	b.WriteString(path())
+	b.WriteString(sp())
+	b.WriteString(arrowsX[r.Intn(len(arrowsX))])
+	b.WriteString(sp())
+	if r.Intn(12) != 0 {
+		b.WriteString(path())
+	}
+	if r.Intn(10) == 0 {
+		b.WriteString(" -> " + path())
+	}
+	if r.Intn(15) != 0 {
+		b.WriteString(")")
+	}
+	b.WriteString(idx[r.Intn(len(idx))])
+	t := b.String()
+	t = strings.ReplaceAll(t, "\\t", "\t")
+	return t
+}
+
+func d2formatKey(s string) string {
+	return d2format.Format(&d2ast.KeyPath{Path: []*d2ast.StringBox{d2ast.MakeValueBox(d2ast.RawString(s, true)).StringBox()}})
+}
+
+func pmkCase(t string) map[string]any {
+	return map[string]any{"k": "pmk", "in": map[string]any{"t": cps(t)}, "out": parseEdgeObs(t)}
+}
+
 func run(c *hl.Ctx) error {
 	if cs := c.ReplayCase(); cs != nil {
 		in := cs["in"].(map[string]any)
+		if cs["k"] == "pmk" {
+			c.Emit(pmkCase(fromCps(in["t"])))
+			return nil
+		}
 		prog := fromCps(in["prog"])
 		b, _ := in["board"].(string)
 		if cs["k"] == "compile-panic" {
@@ -357,6 +416,19 @@ func run(c *hl.Ctx) error {
 			c.Count("prog:compiled")
 		} else {
 			c.Count("prog:compile-error")
+		}
+	}
+	// connection-ID-like texts through the real ParseMapKey (ties the edge-group part of the parser model)
+	m := c.Pick(6000, 300000)
+	var pool []string
+	for i := 0; i < m; i++ {
+		if i%20 == 0 {
+			pool = pg.pool()
+		}
+		t := pg.edgeText(pool)
+		if utf8.ValidString(t) {
+			c.Emit(pmkCase(t))
+			c.Count("pmk")
 		}
 	}
 	return nil
